@@ -249,11 +249,19 @@ func (ts *TermStore) Ite(c, a, b *Term) *Term {
 		panic(fmt.Sprintf("ite sort mismatch %v %v", a.Sort, b.Sort))
 	}
 	if a.Sort.K == SBool {
-		if a.IsTrue() && b.IsFalse() {
+		switch {
+		case a.IsTrue() && b.IsFalse():
 			return c
-		}
-		if a.IsFalse() && b.IsTrue() {
+		case a.IsFalse() && b.IsTrue():
 			return ts.Not(c)
+		case a.IsTrue():
+			return ts.Or(c, b)
+		case b.IsFalse():
+			return ts.And(c, a)
+		case a.IsFalse():
+			return ts.And(ts.Not(c), b)
+		case b.IsTrue():
+			return ts.Or(ts.Not(c), a)
 		}
 	}
 	return ts.intern(&Term{Op: OpIte, Sort: a.Sort, Args: []*Term{c, a, b}})
